@@ -9,8 +9,9 @@ use std::cell::Cell;
 /// of the regression replays. 1 = first release; 2 = sibling subscriptions next to a
 /// self-disallowing handler, writer closures that give up their Var handle, Var<Var> ...;
 /// 3 = template `switch_between_existing` with an arm built inside the closure and a tail that
-/// drops the bind
-pub const LATEST_DECODER: u32 = 3;
+/// drops the bind; 4 = map nodes built with `map_cyclic`, binds built with `binds`, probe action
+/// (graphviz dump, stats and other read-only public calls at arbitrary points)
+pub const LATEST_DECODER: u32 = 4;
 thread_local! { static DECODER: Cell<u32> = Cell::new(LATEST_DECODER); }
 pub fn set_decoder_version(v: u32) {
     DECODER.with(|d| d.set(v));
